@@ -30,6 +30,7 @@ func Compact(buf *bytes.Buffer, src []byte, escape bool) error {
 	}
 	buf.Grow(len(src))
 	dst := buf.Bytes()
+	dst = dst[len(dst):] // append after the existing contents, which buf.Write must not see again
 
 	ctx := TakeRuntimeContext()
 	ctxBuf := ctx.Buf[:0]
